@@ -379,6 +379,7 @@ def run(ctx):
     _run_rules(ctx)
     from .. import boundaries
     boundaries.check(ctx, 'C13.RB', 'C13')
+    boundaries.check_inits(ctx, 'C13.RI', 'C13')
     boundaries.check_codes(ctx, 'C13.RE', 'C13')
     boundaries.check_writes(ctx, 'C13.RW', 'C13')
     boundaries.check_guards(ctx, 'C13.RG', 'C13')
